@@ -10,6 +10,7 @@ package main
 
 import (
 	"fmt"
+	"github.com/shopspring/decimal"
 	"math/big"
 	"strconv"
 	"strings"
@@ -70,6 +71,63 @@ func c05ArgVars(n c04Num) []c05Var {
 }
 
 func c05B(b bool) string { return "b:" + b2s(b) }
+
+// c05ManyCandidates: AnyOf with many candidates (literals and a spread list): the answer must not depend on how many there are.
+// The candidates never hold the receiver itself unless it is planted; they do hold values of ANOTHER kind that print like it
+// (the text "10" for the number 10, the text "true" for true), and numbers that differ from it in the last place.
+func c05ManyCandidates(c *Ctx) {
+	counts := around([]int{7, 8, 9, 10, 12, 16, 17, 32, 33, 64, 65, 100, 129}, 400)
+	type recv struct {
+		name string
+		tv   *TV
+		self string   // a literal equal to the receiver
+		look []string // literals of another kind that print like the receiver
+	}
+	recvs := []recv{
+		{"number", tvF64(10), "10.0", []string{`"10"`, `"10.0"`}},
+		{"int", tvInt("int", "7"), "7", []string{`"7"`, `"7.0"`}},
+		{"decimal", tvDec(decimal.RequireFromString("2.5")), "2.50", []string{`"2.5"`, `"2.50"`}},
+		{"bool", tvBool(true), "true", []string{`"true"`, `"True"`}},
+		{"string", tvStr("abc"), `"abc"`, []string{`"abcd"`, `"ABC"`, `"ab"`}},
+	}
+	for ci, n := range counts {
+		for ri, rv := range recvs {
+			for plant := 0; plant < 3; plant++ { // 0: not there; 1: the receiver is the last candidate; 2: in the middle
+				if plant == 2 && (ci+ri)%2 == 0 {
+					continue
+				}
+				var lits []string
+				var items []*TV
+				for j := 0; len(lits) < n; j++ {
+					switch {
+					case plant == 1 && len(lits) == n-1, plant == 2 && len(lits) == n/2:
+						lits = append(lits, rv.self)
+						items = append(items, rv.tv)
+					case j%4 == 0:
+						l := rv.look[(j/4)%len(rv.look)]
+						lits = append(lits, l)
+						items = append(items, tvStr(strings.Trim(l, `"`)))
+					case j%4 == 1:
+						lits = append(lits, fmt.Sprint(1000+j))
+						items = append(items, tvF64(float64(1000+j)))
+					case j%4 == 2:
+						lits = append(lits, fmt.Sprintf(`"s%d"`, j))
+						items = append(items, tvStr(fmt.Sprintf("s%d", j)))
+					default:
+						lits = append(lits, "false")
+						items = append(items, tvBool(false))
+					}
+				}
+				want := c05B(plant != 0)
+				d := tvMap("str", [][2]any{{hx("a"), rv.tv}, {hx("list"), tvSlice(1, items...)}, {hx("half"), tvSlice(1, items[:n/2]...)}, {hx("rest"), tvSlice(1, items[n/2:]...)}})
+				cls := fmt.Sprintf("many-candidates/%s", rv.name)
+				c.Do(Case{Q: "$.a.AnyOf(" + strings.Join(lits, ",") + ")", D: d, XK: "logical", X: want, Cls: cls + "/literals", InDomain: true})
+				c.Do(Case{Q: "$.a.AnyOf($.list)", D: d, XK: "logical", X: want, Cls: cls + "/spread-list", InDomain: true})
+				c.Do(Case{Q: "$.a.AnyOf($.half,$.rest)", D: d, XK: "logical", X: want, Cls: cls + "/two-spread-lists", InDomain: true})
+			}
+		}
+	}
+}
 
 func c05RelExpect(fn string, cmp int) bool {
 	switch fn {
@@ -320,6 +378,7 @@ func genC05(c *Ctx) {
 		"NotEqual, AnyOf(b)=Equal(b)) and per pair (no variant changes an answer). random: pairs with ≤15 significant digits (over a third related: other scale, " +
 		"neighbour in the last digit, negation), AnyOf with 0..6 arguments of mixed kinds (number/string/bool literals and paths, array paths that are spread) " +
 		"with a planted equal or nearly-equal argument half of the time, Equal/NotEqual on string, bool and cross-kind pairs with non-numeral strings; " +
+		"whole-number boundaries: 127..65536, 10^6 and the neighbours of every integer constant that is new in the source, in every storage, against themselves and their neighbours; AnyOf with 7..129 candidates (and around every new integer constant) as literals, one spread list and two spread lists, the candidates holding values of another kind that print like the receiver, the receiver itself absent / last / in the middle. " +
 		"numeral-string receivers and numeral-string arguments of the order relations are run out of domain without expectation. " +
 		"distinct = distinct (query skeleton, data shape to depth 2, outcome class)"
 
@@ -366,6 +425,37 @@ func genC05(c *Ctx) {
 		}
 	}
 	c.Exhaustive = true
+
+	// whole numbers at the boundaries where an implementation might treat them differently (table sizes, widths of integer types),
+	// and around every integer constant that is new in the source: in every storage, against itself and its neighbours
+	{
+		vals := around([]int{127, 128, 255, 256, 257, 1000, 1023, 1024, 1025, 4096, 32767, 32768, 65535, 65536, 1000000}, 1<<20)
+		for vi, v := range vals {
+			for _, sgn := range []int{1, -1} {
+				if sgn < 0 && vi%3 != 0 {
+					continue
+				}
+				a := c04Parse(fmt.Sprint(sgn * v))
+				avs := c05RecvVars(a)
+				for _, dlt := range []int{0, 1, -1} {
+					b := c04Parse(fmt.Sprint(sgn*v + dlt))
+					bvs := c05ArgVars(b)
+					st := &c05PairState{first: map[string]string{}, firstVar: map[string]string{}}
+					for _, av := range avs {
+						c05Combo(c, a, b, av, bvs[0], "whole-number-boundaries/receiver-variants", st)
+						combos++
+					}
+					if dlt == 0 {
+						for _, bv := range bvs {
+							c05Combo(c, a, b, avs[vi%len(avs)], bv, "whole-number-boundaries/argument-variants", st)
+							combos++
+						}
+					}
+				}
+			}
+		}
+	}
+	c05ManyCandidates(c)
 
 	// random pairs, ≤15 significant digits
 	n := c.scale(2400, 30000)
